@@ -339,7 +339,11 @@ pub fn filter_partitioned_file(
     // Since we're only operating on a single file, our batch and resulting "array" holds only one
     // value indicating if the input file matches the provided filters
     let matches = expr.evaluate(&batch)?.into_array(1)?;
-    if matches.as_boolean().value(0) {
+    // A NULL predicate does not select the file (three-valued logic); the value
+    // stored under a NULL slot is unspecified.
+    let matches = matches.as_boolean();
+    use arrow::array::Array as _;
+    if matches.is_valid(0) && matches.value(0) {
         return Ok(Some(pf));
     }
 
